@@ -1,4 +1,781 @@
-//! E2 "wxsim": library level (filled in below).
+//! E2 "wxsim": the real `Watchexec` runtime (action worker + throttle_collect, fs / signal /
+//! keyboard sources, error hook, Config / Changeable / ConfigWatched, LateJoinSet, jobs) driven by
+//! simulated producers, handlers, a SimFilterer and a SimWatcher (hook H3).
+
+use std::collections::HashMap;
+use std::path::{Path, PathBuf};
+use std::sync::Arc;
+use std::time::Duration;
+
+use serde::{Deserialize, Serialize};
+use tokio::sync::mpsc;
+use watchexec::{
+    action::ActionHandler,
+    error::{CriticalError, RuntimeError},
+    filter::Filterer,
+    sources::fs::Watcher as WatcherKind,
+    Config, ErrorHook, WatchedPath, Watchexec,
+};
+use watchexec_events::{Event, Keyboard, Priority, Tag};
+use watchexec_signals::Signal;
+
+use crate::child::{finalize_world, sim_command, ChildSpec};
+use crate::ctx::{log, run_sim, sleep_ms, with_run, Ev, Policy, RunOut, SimOpts, HOUR_MS};
+use crate::e1::{self, Op};
+
+pub const FINAL_ID: u32 = 999_999;
+pub const PROBE_ID: u32 = 888_888;
+pub const SIGNAL_ID_BASE: u32 = 1_000_000;
+pub const KEYBOARD_ID: u32 = 2_000_000;
+pub const UNKNOWN_ID: u32 = 3_000_000;
+
+// ------------------------------------------------------------------------------------------
+// scenario
+
+#[derive(Clone, Debug, Serialize, Deserialize, PartialEq, Eq, Hash)]
+pub enum PKind {
+    /// `Watchexec::send_event` with a synthetic event
+    Send { id: u32, prio: u8, empty: bool },
+    /// what the signal worker does for one OS signal (H4)
+    Signal { sig: i32 },
+    /// what the stdin watcher does on EOF (H4)
+    KeyboardEof,
+    /// the watcher backend calls the real event handler with Ok(event) for /sim/ev/<id>
+    FsFire { id: u32 },
+    /// the watcher backend calls the real event handler with Err(..)
+    FsErr { tag: u32 },
+    SetThrottle { ms: u64 },
+}
+
+#[derive(Clone, Debug, Serialize, Deserialize, PartialEq, Eq, Hash)]
+pub struct PStep {
+    pub gap: u64,
+    pub kind: PKind,
+}
+
+#[derive(Clone, Debug, Serialize, Deserialize, PartialEq, Eq, Hash)]
+pub enum Change {
+    /// (path id, recursive)
+    Pathset(Vec<(u8, bool)>),
+    /// None = Native, Some(ms) = Poll(ms)
+    FileWatcher(Option<u64>),
+    KeyboardOff,
+    Throttle(u64),
+    ReplaceActionHandler,
+    ReplaceErrorHandler,
+}
+
+#[derive(Clone, Debug, Serialize, Deserialize, PartialEq, Eq, Hash)]
+pub struct CfgStep {
+    pub gap: u64,
+    pub change: Change,
+}
+
+#[derive(Clone, Debug, Serialize, Deserialize, PartialEq, Eq, Hash)]
+pub struct WFault {
+    pub path: u8,
+    /// true: on watch(); false: on unwatch()
+    pub on_watch: bool,
+    /// persistent: every attempt fails; one-shot: only the first
+    pub persistent: bool,
+}
+
+#[derive(Clone, Debug, Default, Serialize, Deserialize, PartialEq, Eq, Hash)]
+pub struct ErrPlan {
+    /// the k-th error-handler call (0-based) elevates the error
+    pub elevate_at: Option<u32>,
+    /// the k-th call raises CriticalError::External
+    pub critical_at: Option<u32>,
+    /// the k-th call replaces the error handler (by an equivalent one)
+    pub replace_at: Option<u32>,
+}
+
+#[derive(Clone, Debug, Serialize, Deserialize, PartialEq, Eq, Hash)]
+pub struct JobPlan {
+    pub at_batch: u32,
+    pub grouped: bool,
+    pub session: bool,
+    pub children: Vec<ChildSpec>,
+    /// controls issued by the handler right after creating the job
+    pub ops: Vec<Op>,
+    /// controls issued by a holder task `gap` ms later (the holder keeps a Job clone for the whole run)
+    pub later: Vec<(u64, Op)>,
+    pub hold_clone: bool,
+}
+
+#[derive(Clone, Debug, Serialize, Deserialize, PartialEq, Eq, Hash)]
+pub struct QuitPlan {
+    pub at_batch: u32,
+    /// None = abort; Some((signal, grace ms)) = graceful
+    pub graceful: Option<(i32, u64)>,
+}
+
+#[derive(Clone, Debug, Serialize, Deserialize, PartialEq, Eq, Hash)]
+pub struct E2Scn {
+    pub family: String,
+    pub throttle: u64,
+    pub event_cap: u32,
+    pub error_cap: u32,
+    pub handler_async: bool,
+    pub handler_durs: Vec<u64>,
+    pub producers: Vec<Vec<PStep>>,
+    /// (id, verdict): 1 reject, 2 error; everything else passes
+    pub verdicts: Vec<(u32, u8)>,
+    pub err_plan: ErrPlan,
+    pub init_paths: Vec<(u8, bool)>,
+    pub init_poll: Option<u64>,
+    pub cfg_steps: Vec<CfgStep>,
+    pub watch_faults: Vec<WFault>,
+    /// watcher creations (0-based) that fail
+    pub create_fail: Vec<u32>,
+    /// at the k-th watch/unwatch call (0-based, counted over the run) this change lands mid-apply
+    pub mid_apply: Vec<(u32, Change)>,
+    pub in_action: Vec<(u32, Change)>,
+    pub in_error: Vec<(u32, Change)>,
+    pub jobs: Vec<JobPlan>,
+    pub quit: Option<QuitPlan>,
+    /// send a liveness probe (a passing normal event) after everything else, before the final marker
+    pub probe: bool,
+    /// seed for the iteration order of the fs worker's registered-path set (hook H6)
+    #[serde(default)]
+    pub hash_seed: u64,
+}
+
+impl Default for E2Scn {
+    fn default() -> Self {
+        Self {
+            family: "".into(),
+            throttle: 50,
+            event_cap: 4096,
+            error_cap: 64,
+            handler_async: false,
+            handler_durs: vec![0],
+            producers: vec![],
+            verdicts: vec![],
+            err_plan: Default::default(),
+            init_paths: vec![],
+            init_poll: None,
+            cfg_steps: vec![],
+            watch_faults: vec![],
+            create_fail: vec![],
+            mid_apply: vec![],
+            in_action: vec![],
+            in_error: vec![],
+            jobs: vec![],
+            quit: None,
+            probe: false,
+            hash_seed: 0,
+        }
+    }
+}
+
+impl E2Scn {
+    pub fn verdict(&self, id: u32) -> u8 {
+        self.verdicts.iter().find(|(i, _)| *i == id).map(|(_, v)| *v).unwrap_or(0)
+    }
+    pub fn max_handler(&self) -> u64 {
+        self.handler_durs.iter().copied().max().unwrap_or(0)
+    }
+    pub fn throttles(&self) -> Vec<u64> {
+        let mut v = vec![self.throttle];
+        for p in &self.producers {
+            for s in p {
+                if let PKind::SetThrottle { ms } = s.kind {
+                    v.push(ms);
+                }
+            }
+        }
+        for c in self.all_changes() {
+            if let Change::Throttle(ms) = c {
+                v.push(*ms);
+            }
+        }
+        v
+    }
+    pub fn all_changes(&self) -> Vec<&Change> {
+        let mut v: Vec<&Change> = self.cfg_steps.iter().map(|c| &c.change).collect();
+        v.extend(self.mid_apply.iter().map(|c| &c.1));
+        v.extend(self.in_action.iter().map(|c| &c.1));
+        v.extend(self.in_error.iter().map(|c| &c.1));
+        v
+    }
+}
+
+// ------------------------------------------------------------------------------------------
+// world
+
+pub struct WatcherState {
+    pub poll: bool,
+    pub alive: bool,
+    pub registered: Vec<(u8, bool)>,
+    pub handler: Option<watchexec::verif::BoxedEventHandler>,
+}
 
 #[derive(Default)]
-pub struct LibWorld {}
+pub struct LibWorld {
+    pub scn: Option<Arc<E2Scn>>,
+    pub config: Option<Arc<Config>>,
+    pub batch_no: u32,
+    pub err_no: u32,
+    pub cfg_no: u32,
+    pub watcher_calls: u32,
+    pub creations: u32,
+    pub watchers: Vec<WatcherState>,
+    pub oneshot_done: Vec<(u8, bool)>,
+    pub action_gen: u32,
+    pub error_gen: u32,
+    pub jobs_created: u32,
+    pub holders: Vec<tokio::task::JoinHandle<()>>,
+    pub in_handler: bool,
+}
+
+fn lib<R>(f: impl FnOnce(&mut LibWorld) -> R) -> R {
+    with_run(|r| f(&mut r.lib))
+}
+
+pub fn path_of(id: u8) -> PathBuf {
+    PathBuf::from(format!("/sim/p{id}"))
+}
+pub fn path_id(p: &Path) -> u8 {
+    p.to_str().and_then(|s| s.strip_prefix("/sim/p")).and_then(|s| s.parse().ok()).unwrap_or(255)
+}
+
+pub fn event_id(ev: &Event) -> u32 {
+    if let Some(v) = ev.metadata.get("sim-id").and_then(|v| v.first()) {
+        return v.parse().unwrap_or(UNKNOWN_ID);
+    }
+    for t in &ev.tags {
+        match t {
+            Tag::Path { path, .. } => {
+                if let Some(n) = path.to_str().and_then(|s| s.strip_prefix("/sim/ev/")).and_then(|s| s.parse::<u32>().ok()) {
+                    return n;
+                }
+            }
+            Tag::Signal(s) => {
+                let n = s.to_nix().map(|n| n as i32).unwrap_or(0);
+                return SIGNAL_ID_BASE + n as u32;
+            }
+            Tag::Keyboard(Keyboard::Eof) => return KEYBOARD_ID,
+            _ => {}
+        }
+    }
+    if ev.tags.is_empty() {
+        return 0;
+    }
+    UNKNOWN_ID
+}
+
+pub fn make_event(id: u32, empty: bool) -> Event {
+    let mut metadata = HashMap::new();
+    metadata.insert("sim-id".to_string(), vec![id.to_string()]);
+    let tags = if empty { vec![] } else { vec![Tag::Source(watchexec_events::Source::Internal)] };
+    Event { tags, metadata }
+}
+
+pub fn prio_of(p: u8) -> Priority {
+    match p {
+        0 => Priority::Low,
+        1 => Priority::Normal,
+        2 => Priority::High,
+        _ => Priority::Urgent,
+    }
+}
+
+// ---- filterer
+
+#[derive(Debug)]
+pub struct SimFilterer;
+
+impl Filterer for SimFilterer {
+    fn check_event(&self, event: &Event, _priority: Priority) -> Result<bool, RuntimeError> {
+        let id = event_id(event);
+        let verdict = lib(|l| l.scn.as_ref().map(|s| s.verdict(id)).unwrap_or(0));
+        log(Ev::Filter { id, verdict });
+        match verdict {
+            1 => Ok(false),
+            2 => Err(RuntimeError::External(format!("sim-filter-error-{id}").into())),
+            _ => Ok(true),
+        }
+    }
+}
+
+// ---- watcher
+
+pub struct SimWatcher {
+    w: u32,
+}
+
+fn apply_change(c: &Change) {
+    let config = lib(|l| l.config.clone());
+    let Some(config) = config else { return };
+    let n = lib(|l| {
+        l.cfg_no += 1;
+        l.cfg_no - 1
+    });
+    log(Ev::CfgChange { n, what: format!("{c:?}") });
+    match c {
+        Change::Pathset(ps) => {
+            let v: Vec<WatchedPath> = ps.iter().map(|(p, rec)| if *rec { WatchedPath::recursive(path_of(*p)) } else { WatchedPath::non_recursive(path_of(*p)) }).collect();
+            config.pathset(v);
+        }
+        Change::FileWatcher(None) => {
+            config.file_watcher(WatcherKind::Native);
+        }
+        Change::FileWatcher(Some(ms)) => {
+            config.file_watcher(WatcherKind::Poll(Duration::from_millis(*ms)));
+        }
+        Change::KeyboardOff => {
+            config.keyboard_events(false);
+        }
+        Change::Throttle(ms) => {
+            config.throttle(Duration::from_millis(*ms));
+        }
+        Change::ReplaceActionHandler => {
+            let g = lib(|l| {
+                l.action_gen += 1;
+                l.action_gen
+            });
+            install_action_handler(&config, g);
+        }
+        Change::ReplaceErrorHandler => {
+            let g = lib(|l| {
+                l.error_gen += 1;
+                l.error_gen
+            });
+            install_error_handler(&config, g);
+        }
+    }
+}
+
+impl SimWatcher {
+    fn call(&mut self, what: &'static str, path: &Path, rec: bool) -> notify::Result<()> {
+        let p = path_id(path);
+        let on_watch = what == "watch";
+        let (k, fail, mid) = lib(|l| {
+            let k = l.watcher_calls;
+            l.watcher_calls += 1;
+            let scn = l.scn.clone().unwrap();
+            let mut fail = false;
+            for f in &scn.watch_faults {
+                if f.path == p && f.on_watch == on_watch {
+                    if f.persistent {
+                        fail = true;
+                    } else if !l.oneshot_done.contains(&(p, on_watch)) {
+                        l.oneshot_done.push((p, on_watch));
+                        fail = true;
+                    }
+                }
+            }
+            let mid: Vec<Change> = scn.mid_apply.iter().filter(|(at, _)| *at == k).map(|(_, c)| c.clone()).collect();
+            (k, fail, mid)
+        });
+        let _ = k;
+        // a "concurrent thread" changes the configuration in the middle of the apply
+        for c in &mid {
+            log(Ev::Note { what: "mid-apply-change", a: k as i64, b: 0 });
+            apply_change(c);
+        }
+        let w = self.w;
+        if fail {
+            log(Ev::Watcher { w, what, path: p, rec, ok: false });
+            return Err(notify::Error::generic(&format!("sim-{what}-fails-p{p}")));
+        }
+        lib(|l| {
+            let st = &mut l.watchers[w as usize];
+            if on_watch {
+                st.registered.retain(|(q, _)| *q != p);
+                st.registered.push((p, rec));
+            } else {
+                st.registered.retain(|(q, _)| *q != p);
+            }
+        });
+        log(Ev::Watcher { w, what, path: p, rec, ok: true });
+        Ok(())
+    }
+}
+
+impl notify::Watcher for SimWatcher {
+    fn new<F: notify::EventHandler>(_event_handler: F, _config: notify::Config) -> notify::Result<Self> {
+        unreachable!("SimWatcher is built by the factory")
+    }
+    fn watch(&mut self, path: &Path, mode: notify::RecursiveMode) -> notify::Result<()> {
+        self.call("watch", path, matches!(mode, notify::RecursiveMode::Recursive))
+    }
+    fn unwatch(&mut self, path: &Path) -> notify::Result<()> {
+        self.call("unwatch", path, false)
+    }
+    fn kind() -> notify::WatcherKind {
+        notify::WatcherKind::NullWatcher
+    }
+}
+
+impl Drop for SimWatcher {
+    fn drop(&mut self) {
+        let installed = crate::ctx::RUN.with(|r| r.try_borrow().map(|r| r.is_some()).unwrap_or(false));
+        if !installed {
+            return;
+        }
+        let w = self.w;
+        lib(|l| {
+            l.watchers[w as usize].alive = false;
+            l.watchers[w as usize].handler = None;
+        });
+        log(Ev::WatcherDrop { w });
+    }
+}
+
+pub fn install_watcher_factory() {
+    watchexec::verif::set_watcher_factory(Some(Box::new(|kind, handler| {
+        let poll = matches!(kind, WatcherKind::Poll(_));
+        let (w, fail) = lib(|l| {
+            let c = l.creations;
+            l.creations += 1;
+            let fail = l.scn.as_ref().map(|s| s.create_fail.contains(&c)).unwrap_or(false);
+            let w = l.watchers.len() as u32;
+            if !fail {
+                l.watchers.push(WatcherState { poll, alive: true, registered: vec![], handler: Some(handler) });
+            }
+            (w, fail)
+        });
+        log(Ev::WatcherNew { w, poll, ok: !fail });
+        if fail {
+            return Err(CriticalError::FsWatcherInit { kind, err: watchexec::error::FsWatcherError::Create(notify::Error::generic("sim-create-fails")) });
+        }
+        Ok(Box::new(SimWatcher { w }) as Box<dyn notify::Watcher + Send>)
+    })));
+}
+
+/// the watcher backend's thread delivers something to the real handler closure of the live watcher
+fn fire(ev: Result<notify::Event, notify::Error>) -> bool {
+    // take the handler out while calling it (it logs through the same thread-local)
+    let slot = lib(|l| {
+        let w = l.watchers.iter().rposition(|w| w.alive && w.handler.is_some())?;
+        l.watchers[w].handler.take().map(|h| (w, h))
+    });
+    let Some((w, mut h)) = slot else { return false };
+    h(ev);
+    lib(|l| {
+        if l.watchers[w].alive {
+            l.watchers[w].handler = Some(h);
+        }
+    });
+    true
+}
+
+// ---- handlers
+
+fn on_batch(mut action: ActionHandler) -> (ActionHandler, u64, u32) {
+    let ids: Vec<u32> = action.events.iter().map(event_id).collect();
+    let (n, scn) = lib(|l| {
+        let n = l.batch_no;
+        l.batch_no += 1;
+        l.in_handler = true;
+        (n, l.scn.clone().unwrap())
+    });
+    log(Ev::Batch { n, ids: ids.clone(), urgent: false });
+    for (at, c) in &scn.in_action {
+        if *at == n {
+            apply_change(c);
+        }
+    }
+    for (ji, plan) in scn.jobs.iter().enumerate() {
+        if plan.at_batch == n {
+            let jobno = ji as u8;
+            with_run(|r| {
+                r.world.ensure_job(ji);
+                r.world.specs[ji] = if plan.children.is_empty() { vec![ChildSpec::default()] } else { plan.children.clone() };
+            });
+            let (_id, job) = action.create_job(sim_command(jobno, plan.grouped, plan.session));
+            lib(|l| l.jobs_created += 1);
+            for (oi, op) in plan.ops.iter().enumerate() {
+                let opid = (ji * 1000 + oi) as u32;
+                log(Ev::CtlSend { job: jobno, sender: 0, op: opid, what: op.name() });
+                let _ = e1::issue(&job, op, opid, jobno);
+            }
+            if plan.hold_clone || !plan.later.is_empty() {
+                let later = plan.later.clone();
+                let h = tokio::spawn(async move {
+                    for (oi, (gap, op)) in later.iter().enumerate() {
+                        sleep_ms(*gap).await;
+                        let opid = (ji * 1000 + 500 + oi) as u32;
+                        log(Ev::CtlSend { job: jobno, sender: 1, op: opid, what: op.name() });
+                        let _ = e1::issue(&job, op, opid, jobno);
+                    }
+                    // keeps its Job clone alive for the whole run
+                    sleep_ms(10 * HOUR_MS).await;
+                    drop(job);
+                });
+                lib(|l| l.holders.push(h));
+            }
+        }
+    }
+    let mut quit = false;
+    if let Some(q) = &scn.quit {
+        if q.at_batch == n {
+            quit = true;
+            match q.graceful {
+                None => {
+                    log(Ev::QuitReq { manner: "abort", grace: 0 });
+                    action.quit();
+                }
+                Some((sig, grace)) => {
+                    log(Ev::QuitReq { manner: "graceful", grace });
+                    action.quit_gracefully(Signal::from(sig), Duration::from_millis(grace));
+                }
+            }
+        }
+    }
+    if !quit && ids.contains(&FINAL_ID) {
+        log(Ev::QuitReq { manner: "final", grace: 0 });
+        action.quit();
+    }
+    let dur = if scn.handler_durs.is_empty() { 0 } else { scn.handler_durs[n as usize % scn.handler_durs.len()] };
+    (action, dur, n)
+}
+
+fn batch_end(n: u32) {
+    lib(|l| l.in_handler = false);
+    log(Ev::BatchEnd { n });
+}
+
+fn install_action_handler(config: &Config, generation: u32) {
+    let is_async = lib(|l| l.scn.as_ref().map(|s| s.handler_async).unwrap_or(false));
+    if is_async {
+        config.on_action_async(move |action| {
+            let (action, dur, n) = on_batch(action);
+            note_generation("action-handler-generation", generation);
+            Box::new(async move {
+                if dur > 0 {
+                    sleep_ms(dur).await;
+                }
+                batch_end(n);
+                action
+            })
+        });
+    } else {
+        config.on_action(move |action| {
+            let (action, _dur, n) = on_batch(action);
+            note_generation("action-handler-generation", generation);
+            batch_end(n);
+            action
+        });
+    }
+}
+
+fn note_generation(what: &'static str, generation: u32) {
+    log(Ev::Note { what, a: generation as i64, b: 0 });
+}
+
+fn install_error_handler(config: &Config, generation: u32) {
+    config.on_error(move |hook: ErrorHook| {
+        let (n, scn) = lib(|l| {
+            let n = l.err_no;
+            l.err_no += 1;
+            (n, l.scn.clone().unwrap())
+        });
+        let mut msg = format!("{} | {:?}", hook.error, hook.error);
+        msg.truncate(300);
+        log(Ev::RtErr { n, msg });
+        note_generation("error-handler-generation", generation);
+        for (at, c) in &scn.in_error {
+            if *at == n {
+                apply_change(c);
+            }
+        }
+        if scn.err_plan.replace_at == Some(n) {
+            apply_change(&Change::ReplaceErrorHandler);
+            log(Ev::ErrAction { n, what: "replace" });
+        }
+        if scn.err_plan.elevate_at == Some(n) {
+            log(Ev::ErrAction { n, what: "elevate" });
+            hook.elevate();
+        } else if scn.err_plan.critical_at == Some(n) {
+            log(Ev::ErrAction { n, what: "critical" });
+            hook.critical(CriticalError::External("sim-critical".into()));
+        }
+    });
+}
+
+// ---- producers
+
+async fn producer(pi: usize, steps: Vec<PStep>, wx: Arc<Watchexec>) {
+    let (dummy_tx, mut dummy_rx) = mpsc::channel::<RuntimeError>(8);
+    for st in steps {
+        if st.gap > 0 {
+            sleep_ms(st.gap).await;
+        }
+        match st.kind {
+            PKind::Send { id, prio, empty } => {
+                log(Ev::EvSend { id, prio, src: pi as u8 });
+                let r = tokio::time::timeout(Duration::from_millis(HOUR_MS), wx.send_event(make_event(id, empty), prio_of(prio))).await;
+                match r {
+                    Ok(r) => log(Ev::EvSent { id, ok: r.is_ok() }),
+                    Err(_) => log(Ev::Note { what: "send-hung", a: id as i64, b: 0 }),
+                }
+            }
+            PKind::Signal { sig } => {
+                let s = Signal::from(sig);
+                let id = SIGNAL_ID_BASE + sig as u32;
+                let prio = match s {
+                    Signal::Interrupt | Signal::Terminate => 3,
+                    _ => 2,
+                };
+                log(Ev::EvSend { id, prio, src: 100 });
+                let r = tokio::time::timeout(Duration::from_millis(HOUR_MS), watchexec::verif::signal_send_event(dummy_tx.clone(), wx.verif_event_input(), s)).await;
+                let failed = dummy_rx.try_recv().is_ok();
+                match r {
+                    Ok(r) => log(Ev::EvSent { id, ok: r.is_ok() && !failed }),
+                    Err(_) => log(Ev::Note { what: "send-hung", a: id as i64, b: 0 }),
+                }
+            }
+            PKind::KeyboardEof => {
+                log(Ev::EvSend { id: KEYBOARD_ID, prio: 1, src: 101 });
+                let r = tokio::time::timeout(
+                    Duration::from_millis(HOUR_MS),
+                    watchexec::verif::keyboard_send_event(dummy_tx.clone(), wx.verif_event_input(), Keyboard::Eof),
+                )
+                .await;
+                let failed = dummy_rx.try_recv().is_ok();
+                match r {
+                    Ok(r) => log(Ev::EvSent { id: KEYBOARD_ID, ok: r.is_ok() && !failed }),
+                    Err(_) => log(Ev::Note { what: "send-hung", a: KEYBOARD_ID as i64, b: 0 }),
+                }
+            }
+            PKind::FsFire { id } => {
+                let input = wx.verif_event_input();
+                let room = !input.is_full() && !input.is_closed();
+                let ev = notify::Event::new(notify::EventKind::Modify(notify::event::ModifyKind::Any)).add_path(PathBuf::from(format!("/sim/ev/{id}")));
+                log(Ev::EvSend { id, prio: 1, src: 102 });
+                let fired = fire(Ok(ev));
+                if fired {
+                    log(Ev::EvTrySend { id, ok: room });
+                } else {
+                    log(Ev::Note { what: "fs-fire-without-watcher", a: id as i64, b: 0 });
+                }
+            }
+            PKind::FsErr { tag } => {
+                let fired = fire(Err(notify::Error::generic(&format!("sim-callback-error-{tag}"))));
+                log(Ev::Note { what: "fs-callback-error", a: tag as i64, b: fired as i64 });
+            }
+            PKind::SetThrottle { ms } => apply_change(&Change::Throttle(ms)),
+        }
+    }
+}
+
+async fn e2_root(scn: E2Scn) {
+    e1::reset_counters();
+    let scn = Arc::new(scn);
+    lib(|l| {
+        *l = LibWorld::default();
+        l.scn = Some(scn.clone());
+    });
+    let mut config = Config::default();
+    config.event_channel_size = scn.event_cap as usize;
+    config.error_channel_size = scn.error_cap as usize;
+    config.throttle(Duration::from_millis(scn.throttle));
+    config.filterer(SimFilterer);
+    install_action_handler(&config, 0);
+    install_error_handler(&config, 0);
+    if let Some(ms) = scn.init_poll {
+        config.file_watcher(WatcherKind::Poll(Duration::from_millis(ms)));
+    }
+    if !scn.init_paths.is_empty() {
+        let v: Vec<WatchedPath> =
+            scn.init_paths.iter().map(|(p, rec)| if *rec { WatchedPath::recursive(path_of(*p)) } else { WatchedPath::non_recursive(path_of(*p)) }).collect();
+        config.pathset(v);
+    }
+    let wx = match Watchexec::with_config(config) {
+        Ok(wx) => Arc::new(wx),
+        Err(e) => {
+            log(Ev::MainEnd { ok: false, msg: format!("with_config: {e}") });
+            return;
+        }
+    };
+    lib(|l| l.config = Some(wx.config.clone()));
+    let main = wx.main();
+    let monitor = tokio::spawn(async move {
+        let r = main.await;
+        match r {
+            Ok(Ok(())) => log(Ev::MainEnd { ok: true, msg: String::new() }),
+            Ok(Err(e)) => {
+                let mut msg = format!("{e} | {e:?}");
+                msg.truncate(300);
+                log(Ev::MainEnd { ok: false, msg })
+            }
+            Err(e) => log(Ev::MainEnd { ok: false, msg: format!("join error: {e}") }),
+        }
+    });
+    // let the workers start (fs worker's first apply etc.) before anything is sent, as main() callers do
+    tokio::task::yield_now().await;
+
+    let mut tasks = Vec::new();
+    for (pi, steps) in scn.producers.iter().enumerate() {
+        tasks.push(tokio::spawn(producer(pi, steps.clone(), wx.clone())));
+    }
+    if !scn.cfg_steps.is_empty() {
+        let steps = scn.cfg_steps.clone();
+        tasks.push(tokio::spawn(async move {
+            for st in steps {
+                if st.gap > 0 {
+                    sleep_ms(st.gap).await;
+                }
+                apply_change(&st.change);
+            }
+        }));
+    }
+    for t in tasks {
+        let _ = t.await;
+    }
+    log(Ev::Note { what: "producers-done", a: 0, b: 0 });
+    // quiescent stretch: longer than any window plus any handler
+    let quiet = scn.throttles().iter().copied().max().unwrap_or(0) + 2 * scn.max_handler() + 1000;
+    settle(quiet).await;
+    if scn.probe && !monitor.is_finished() {
+        log(Ev::EvSend { id: PROBE_ID, prio: 1, src: 200 });
+        let r = tokio::time::timeout(Duration::from_millis(HOUR_MS), wx.send_event(make_event(PROBE_ID, false), Priority::Normal)).await;
+        log(Ev::EvSent { id: PROBE_ID, ok: matches!(r, Ok(Ok(()))) });
+        settle(quiet).await;
+    }
+    log(Ev::Note { what: "quiescent", a: 0, b: 0 });
+    // final marker: urgent, makes the handler quit (abort) unless the scenario has quit already
+    if !monitor.is_finished() {
+        log(Ev::EvSend { id: FINAL_ID, prio: 3, src: 201 });
+        let r = tokio::time::timeout(Duration::from_millis(HOUR_MS), wx.send_event(make_event(FINAL_ID, false), Priority::Urgent)).await;
+        log(Ev::EvSent { id: FINAL_ID, ok: matches!(r, Ok(Ok(()))) });
+    }
+    let ended = tokio::time::timeout(Duration::from_millis(HOUR_MS), monitor).await;
+    if ended.is_err() {
+        log(Ev::Note { what: "main-never-ended", a: 0, b: 0 });
+    }
+    finalize_world();
+    log(Ev::Note { what: "scenario-over", a: 0, b: 0 });
+    let holders = lib(|l| std::mem::take(&mut l.holders));
+    for h in holders {
+        h.abort();
+    }
+    lib(|l| {
+        l.config = None;
+    });
+    drop(wx);
+}
+
+/// wait until the action worker has been idle (no batch delivered, no handler running) for `quiet` ms
+async fn settle(quiet: u64) {
+    for _ in 0..500 {
+        let before = lib(|l| l.batch_no);
+        sleep_ms(quiet).await;
+        let (after, busy) = lib(|l| (l.batch_no, l.in_handler));
+        if after == before && !busy {
+            return;
+        }
+    }
+    log(Ev::Note { what: "never-settled", a: 0, b: 0 });
+}
+
+pub fn execute(scn: &E2Scn, policy: Policy, sched_seed: u64) -> RunOut {
+    crate::child::install_interposer();
+    install_watcher_factory();
+    let scn = scn.clone();
+    watchexec::verif::set_hash_seed(scn.hash_seed);
+    run_sim(policy, sched_seed, SimOpts { enable_io: true }, move || e2_root(scn))
+}
